@@ -17,7 +17,7 @@ ALLOW = [
     (r"fs::OpenOptions::open$", r"gix_ref::store_impl::file::loose::reflog::create_or_update::<impl gix_ref::store_impl::file::Store>::reflog_create_or_append", "reflog append/create"),
     (r"^std::fs::create_dir$", r"gix_fs::dir::create::Iter", "race-proof creation of leading directories (reflog, lock)"),
     (r"^std::fs::remove_dir$", r"gix_fs::dir::remove::", "removal of empty directories"),
-    (r"^std::fs::remove_file$", r"(transaction::commit::<impl gix_ref::store_impl::file::Transaction<'_, '_>>::commit_inner$|packed::transaction::<impl gix_ref::store_impl::packed::Transaction>::commit$|gix_tempfile::)", "deleting refs/reflogs/empty packed-refs, tempfile cleanup"),
+    (r"^std::fs::remove_file$", r"(^gix_ref::store_impl::(file|packed)::|gix_tempfile::)", "deleting refs/reflogs/empty packed-refs (ordering is decided separately), tempfile cleanup"),
     (r"^tempfile::.*::persist$", r"gix_tempfile::forksafe::ForksafeTempfile::persist_inner$", "lock commit = rename of the lock file"),
 ]
 CI = r"transaction::commit::<impl gix_ref::store_impl::file::Transaction<'_, '_>>::commit_inner$"
@@ -63,7 +63,24 @@ def run(db, chk):
             before = cs.block in ci.reach_from(r.block, avoid={H} if H is not None else ())
             chk.ob("reflog-before-ref", "commit_inner update loop", before and not after, "within one iteration the reflog append must precede the lock commit (reflog reachable after commit: %s)" % after, r.where(), key="reflog-before-ref")
     pcommit = ci.calls_to(r"packed::Transaction>::commit$")
-    dels = [c for c in ci.calls_to(r"^std::fs::remove_file$") if fl.derives_from_call(c.args[0], r"::reference_path$")]
+    cg = db.callgraph()
+
+    def reaches_remove(name, seen=None):
+        seen = seen if seen is not None else set()
+        if name in seen or not name.startswith(("gix_ref::", "<gix_ref::")):
+            return False
+        seen.add(name)
+        f_ = db.fns.get(name)
+        if f_ is None:
+            return False
+        if any(c.is_(r"^std::fs::remove_file$") for c in f_.calls()):
+            return True
+        return any(reaches_remove(n, seen) for n in cg.get(name, ()))
+
+    def is_reflog(c):
+        return any(fl.derives_from_call(a, r"reflog_base_and_relative_path$|::reflog_path") for a in c.args) or any(any(r[0] == "var" and "reflog" in r[2] for r in fl.roots(a)) for a in c.args)
+
+    dels = [c for c in ci.calls() if (c.is_(r"^std::fs::remove_file$") or reaches_remove(c.name)) and not is_reflog(c) and not c.is_(r"reflog_create_or_append$|packed::Transaction>::commit$")]
     chk.floor("packed transaction commit call", len(pcommit), 1)
     chk.floor("loose reference deletion", len(dels), 1)
     for p in pcommit:
@@ -84,4 +101,44 @@ def run(db, chk):
     wm = pc.calls_to(r"gix_lock::file::<impl gix_lock::File>::with_mut$")
     fin = pc.calls_to(r"gix_lock::commit::<impl gix_lock::File>::commit$")
     chk.floor("packed-refs writes through the lock file", len(wm), 3)
+    # every record copied over is counted: the file is removed iff nothing was written
+    cnt = pc.locals_named("num_written_lines")
+    chk.floor("num_written_lines counter", len(cnt), 1)
+    incs = {bi for bi, si, pl, rv, ln, mc in pc.assigns() if len(pl) == 1 and pl[0] in cnt and rv[0] in ("use", "bin") and any(isinstance(x, dict) and "p" in x and x["p"][0] != pl[0] or True for x in [rv]) and
+            (rv[0] == "use" and "p" in rv[1] and any(k == "a" and p2[1][0] == "bin" and p2[1][1].startswith("Add") for (b2, s2, k, p2) in pfl.defs.get(rv[1]["p"][0], [])))}
+    loops_ = pc.loops()
+    nplain = 0
+    for w in wm:
+        clo = None
+        for a in w.args:
+            if "p" in a:
+                for (b2, s2, k, p2) in pfl.defs.get(a["p"][0], []):
+                    if k == "a" and p2[1][0] == "agg" and p2[1][1] == "closure":
+                        clo = (p2[1][2], p2[1][4])
+        if clo is None:
+            continue
+        body = db.fns.get(clo[0])
+        if body is None:
+            continue
+        if body.calls_to(r"packed::transaction::write_edit$"):
+            captures = any(any(r[0] == "var" and r[2] == "num_written_lines" for r in pfl.roots(o)) for o in clo[1])
+            chk.ob("written-records-are-counted", "write_edit closure@%d captures the counter" % w.line, captures, "", w.where(), key="counted|write_edit")
+        elif body.calls_to(r"packed::transaction::write_packed_ref$"):
+            nplain += 1
+            hs = [l for l in loops_ if w.block in l["body"]]
+            H = min(hs, key=lambda l: len(l["body"]))["header"] if hs else 0
+            before = w.block not in pc.reach_from(H, avoid=incs)
+            after = H not in pc.reach_from(w.target, avoid=incs) if w.target is not None else False
+            chk.ob("written-records-are-counted", "write_packed_ref@%d" % w.line, before or after,
+                   "an existing packed ref is copied to the new file without counting it: if nothing else is written the new packed-refs is discarded and every ref in it is lost", w.where(), key="counted|write_packed_ref")
+    chk.floor("plain copies of existing packed refs", nplain, 2)
+    rm = pc.calls_to(r"^std::fs::remove_file$")
+    from gx.flow import comparisons, bool_switch_edges
+    zero_edges = set()
+    for cmp in comparisons(pc):
+        if cmp["op"] == "Eq" and any("p" in cmp[s_] and any(r[0] == "var" and r[2] == "num_written_lines" for r in pfl.roots(cmp[s_])) for s_ in ("a", "b")) and any(cmp[s_].get("v") == 0 for s_ in ("a", "b")):
+            e = bool_switch_edges(pc, cmp["block"], cmp["res"])
+            if e:
+                zero_edges |= e[0]
+    chk.ob("packed-refs-removed-only-when-empty", "packed::Transaction::commit", bool(rm) and bool(zero_edges) and pfl.cut_off([c.block for c in rm], zero_edges), "", "%s:%d" % (pc.file, pc.line), key="remove-only-when-empty")
     chk.ob("packed-written-then-committed", "packed::Transaction::commit", len(fin) == 1 and all(fin[0].block in pc.reach_from(w.block) and w.block not in pc.reach_from(fin[0].block) for w in wm), "", "%s:%d" % (pc.file, pc.line), key="packed-written-then-committed")
